@@ -98,11 +98,11 @@ def comp_lemma(name, comp, spec_call, vars, ind_var, needs):
 
 
 case("ls", dict(lhs=ListOf(VAL), rhs=VAL, other=("const", None)), ["items(result) == map_ls(function, lhs, rhs)"], "comp_ls(lhs, function, rhs, ctx)", "shape (list, scalar): the scalar is paired with every item")
-comp_lemma("comp_ls", "comp_vectorise_L64(xs, f, y, c)", "map_ls(f, xs, y)", dict(xs=SEQ(VAL), f=VAL, y=VAL, c=VAL), "xs", f"{V}#ls")
+comp_lemma("comp_ls", "comp_2709a7e4(xs, f, y, c)", "map_ls(f, xs, y)", dict(xs=SEQ(VAL), f=VAL, y=VAL, c=VAL), "xs", f"{V}#ls")
 case("sl", dict(lhs=VAL, rhs=ListOf(VAL), other=("const", None)), ["items(result) == map_sl(function, lhs, rhs)"], "comp_sl(rhs, function, lhs, ctx)", "shape (scalar, list)")
-comp_lemma("comp_sl", "comp_vectorise_L61(ys, f, x, c)", "map_sl(f, x, ys)", dict(ys=SEQ(VAL), f=VAL, x=VAL, c=VAL), "ys", f"{V}#sl")
+comp_lemma("comp_sl", "comp_3aff2f39(ys, f, x, c)", "map_sl(f, x, ys)", dict(ys=SEQ(VAL), f=VAL, x=VAL, c=VAL), "ys", f"{V}#sl")
 case("l", dict(lhs=ListOf(VAL), rhs=("const", None), other=("const", None)), ["items(result) == map_l(function, lhs)"], "comp_l(lhs, function, ctx)", "shape (list): monadic elements")
-comp_lemma("comp_l", "comp_vectorise_L99(xs, f, c)", "map_l(f, xs)", dict(xs=SEQ(VAL), f=VAL, c=VAL), "xs", f"{V}#l")
+comp_lemma("comp_l", "comp_00a80bdd(xs, f, c)", "map_l(f, xs)", dict(xs=SEQ(VAL), f=VAL, c=VAL), "xs", f"{V}#l")
 
 
 # ---- list x list: zip with zero fill, then pairwise application
@@ -149,4 +149,4 @@ W.contract(
 )
 
 case("ll", dict(lhs=ListOf(VAL), rhs=ListOf(VAL), other=("const", None)), ["items(result) == map_pairs(function, zf(lhs, rhs))"], "comp_ll(zf(lhs, rhs), function, ctx)", "shape (list, list): items paired position by position, zero fill")
-comp_lemma("comp_ll", "comp_vectorise_L67(ps, f, c)", "map_pairs(f, ps)", dict(ps=SEQ(VAL), f=VAL, c=VAL), "ps", f"{V}#ll")
+comp_lemma("comp_ll", "comp_7309e79c(ps, f, c)", "map_pairs(f, ps)", dict(ps=SEQ(VAL), f=VAL, c=VAL), "ps", f"{V}#ll")
